@@ -52,6 +52,15 @@ func TestC03WellFormed(t *testing.T) {
 			labels = append(labels, "data:via-Range")
 		}
 
+		// A document that went through UnmarshalDocument has an empty, non-nil
+		// Resources map; a hand-built one may have anything there.
+		switch rapid.IntRange(0, 5).Draw(t, "docresources") {
+		case 0:
+			c.Doc.Resources = map[string]map[string]struct{}{}
+		case 1:
+			c.Doc.Resources = map[string]map[string]struct{}{"zz-unrelated": {"1": {}}}
+		}
+
 		if rapid.IntRange(0, 3).Draw(t, "doclinks") == 0 {
 			c.Doc.Links = map[string]jsonapi.Link{"related": {HRef: gen.HostileString(t, "href"), Meta: gen.JSONObject(t, "linkmeta", 1, 2)}}
 		}
